@@ -7,10 +7,10 @@ reflection entry ids, the snapshot's `agent` field / file name and every record.
 composed turn of the world with that agent (`wFor`), started in a state reachable by the turns before it — so every
 per-turn theorem of the composition applies verbatim.
 
-The orchestrator's turn-level T2 cache is keyed by (version_etag, input text) only (C05's recorded findings
-`turn:agent` / `turn:owner_scope`): with it ON, agent B is served agent A's hits.  The harness keeps it OFF in
-multi-agent histories; `C01_compose_agents_needs_orch_cache_off` is the witness.  (The process-global T2 STAGE cache
-carries the owner in its key — fix 1b85992 — and stays transparent.)
+Since the fix `C05_turn_key_context` the orchestrator's turn-level T2 cache key digests the turn's agent (with the
+ids T1 touched, the memory index version and — hybrid on — the GEL edges): an entry stored by agent A's turn is never
+served to agent B.  `C01_compose_agents_scope_cached` is the positive statement, cache ON included (on the tree before
+the fix B was served A's hits — C05's findings `turn:agent` / `turn:owner_scope`).
 -/
 import Clem.Proofs.Compose
 import Clem.Props.C01.ComposeSnap
@@ -122,6 +122,132 @@ theorem C01_compose_agents_snapshot (s : State α) (ts : List (TurnIn α × Orac
   · rw [hag, (wFor_shared w t.1).2.2.2.2]
   · rw [hst, runTurn_state]
 
+/-! ### the orchestrator cache keeps the agents apart (cache ON) -/
+
+/-- `x` is the T2 model's answer for agent `a` (some oracles, some memory), or the empty answer -/
+def T2GoodA (a : Str) (x : Clem.T2.Out α) : Prop :=
+  x = emptyT2 c ∨ ∃ (o : Oracles α) (qo : QOracle α) (h : Clem.T2.HCfg α) (q : Clem.T2.QCfg α)
+      (mem : List Clem.Refl.Written),
+    x = Clem.T2.t2 (t2Cfg { w with agent := a } c o qo) c.tiers (withCos (epsAt w mem o) qo.cos) h q (t2K c)
+          c.residualCap (gnodes w)
+
+/-- every entry of the orchestrator's cache was computed for the agent its key names -/
+def GoodStateA (s : State α) : Prop := ∀ e ∈ s.orch, T2GoodA w c e.1.2.agent e.2
+
+theorem wFor_t2 (t : TurnIn α) (o : Oracles α) (qo : QOracle α) (mem : List Clem.Refl.Written) :
+    t2Cfg (wFor w t) c o qo = t2Cfg { w with agent := (wFor w t).agent } c o qo ∧
+    epsAt (wFor w t) mem o = epsAt w mem o ∧ gnodes (wFor w t) = gnodes w := by
+  unfold wFor
+  cases t.agent <;> exact ⟨rfl, rfl, rfl⟩
+
+theorem fresh_goodA (t : TurnIn α) (o : Oracles α) (g : Clem.Gel.State α) (q : Str) (mem : List Clem.Refl.Written) :
+    T2GoodA w c (wFor w t).agent ((t2Call (wFor w t) c o g q mem).getD (emptyT2 c)) := by
+  unfold t2Call
+  split
+  · left; rfl
+  · rename_i qo _
+    right
+    refine ⟨o, qo, hybOf c g, qualOf c qo, mem, ?_⟩
+    simp only [Option.getD_some]
+    rw [(wFor_t2 w c t o qo mem).1, (wFor_t2 w c t o qo mem).2.1, (wFor_t2 w c t o qo mem).2.2]
+
+theorem t2Stage_goodA (s : State α) (t : TurnIn α) (o : Oracles α) (hs : GoodStateA w c s) :
+    T2GoodA w c (wFor w t).agent (t2Stage (wFor w t) c s t o).out ∧
+    ∀ e ∈ (t2Stage (wFor w t) c s t o).orch, T2GoodA w c e.1.2.agent e.2 := by
+  unfold t2Stage
+  dsimp only
+  split
+  · split
+    · rename_i e he
+      have hmem := List.mem_of_find?_eq_some he
+      have hk := List.find?_some he
+      unfold okeyEq at hk
+      simp only [Bool.and_eq_true] at hk
+      have hag : e.1.2.agent = (wFor w t).agent := by
+        have := hk.1.1.1.2
+        simpa [orchKey] using this
+      refine ⟨?_, hs⟩
+      rw [← hag]
+      exact hs e hmem
+    · refine ⟨fresh_goodA w c t o _ _ _, ?_⟩
+      intro e he
+      rcases List.mem_append.1 he with h | h
+      · exact hs e h
+      · rw [List.mem_singleton] at h
+        rw [h]
+        exact fresh_goodA w c t o _ _ _
+  · exact ⟨fresh_goodA w c t o _ _ _, hs⟩
+
+theorem nextState_goodA (s : State α) (t : TurnIn α) (o : Oracles α) (hs : GoodStateA w c s) :
+    GoodStateA w c (nextState (wFor w t) c s t o) := by
+  intro e he
+  have he' : e ∈ orchNext (wFor w t) c s t o := he
+  unfold orchNext at he'
+  split at he'
+  · exact hs e he'
+  · split at he'
+    · cases he'
+    · exact (t2Stage_goodA w c s t o hs).2 e he'
+
+/-- every turn of a multi-agent history runs on a state whose cache entries are all labelled with the right agent -/
+theorem agents_step_good (ts : List (TurnIn α × Oracles α)) :
+    ∀ (s : State α), GoodStateA w c s → ∀ o ∈ (runTurnsMA w c s ts).outs,
+      ∃ (s' : State α) (t : TurnIn α × Oracles α), t ∈ ts ∧ GoodStateA w c s' ∧
+        o = runTurn (wFor w t.1) c s' t.1 t.2 := by
+  induction ts with
+  | nil => intro s _ o h; simp [runTurnsMA_nil] at h
+  | cons t r ih =>
+    intro s hs o h
+    rw [runTurnsMA_cons] at h
+    simp only [List.mem_cons] at h
+    rcases h with h | h
+    · exact ⟨s, t, by simp, hs, h⟩
+    · have hn : GoodStateA w c (runTurn (wFor w t.1) c s t.1 t.2).state := by
+        rw [runTurn_state]; exact nextState_goodA w c s t.1 t.2 hs
+      obtain ⟨s', t', ht', hg', ho⟩ := ih _ hn o h
+      exact ⟨s', t', List.mem_cons_of_mem _ ht', hg', ho⟩
+
+/-- **owner scope follows the turn's agent — orchestrator cache ON included.**  In every multi-agent history started
+with an empty (or correctly labelled) turn-level cache, whatever `t4.cache` says: every hit of a turn is visible under
+THAT turn's agent's owner scope, and under `owner_scope = agent` it is owned by that agent — a result cached by
+another agent's turn is never served (the key digests the agent: fix `C05_turn_key_context`). -/
+theorem C01_compose_agents_scope_cached (s : State α) (ts : List (TurnIn α × Oracles α)) (hk : 1 ≤ c.k)
+    (hs : GoodStateA w c s) :
+    ∀ o ∈ (runTurnsMA w c s ts).outs, ∃ t ∈ ts,
+      (∀ e ∈ o.t2.retrieved,
+        Clem.T2.visible (Clem.T2.ownerForQuery c.scope (some (t.1.agent.getD w.agent))) e = true) ∧
+      (c.scope = 1 → ∀ e ∈ o.t2.retrieved, e.owner = .str (t.1.agent.getD w.agent)) := by
+  intro o ho
+  obtain ⟨s', t, ht, hg, rfl⟩ := agents_step_good w c ts s hs o ho
+  refine ⟨t, ht, ?_⟩
+  have hag := (wFor_shared w t.1).2.2.2.2
+  rw [runTurn_t2]
+  have hgood := (t2Stage_goodA w c s' t.1 t.2 hg).1
+  have hvis : ∀ e ∈ (t2Of (wFor w t.1) c s' t.1 t.2).retrieved,
+      Clem.T2.visible (Clem.T2.ownerForQuery c.scope (some (t.1.agent.getD w.agent))) e = true := by
+    intro e he
+    rcases hgood with h0 | ⟨o', qo, hh, qq, mem', h0⟩
+    · have : t2Of (wFor w t.1) c s' t.1 t.2 = emptyT2 c := h0
+      rw [this] at he; cases he
+    · have h0' : t2Of (wFor w t.1) c s' t.1 t.2 = _ := h0
+      rw [h0'] at he
+      have h := Clem.T2.C11_t2_retrieved (t2Cfg { w with agent := (wFor w t.1).agent } c o' qo) c.tiers
+        (withCos (epsAt w mem' o') qo.cos) hh qq (t2K c) c.residualCap (gnodes w) hk
+      have hv := (h.2.2 e he).2.1
+      have hv' : Clem.T2.visible (Clem.T2.ownerForQuery c.scope (some (wFor w t.1).agent)) e = true := hv
+      rw [hag] at hv'
+      exact hv'
+  refine ⟨hvis, ?_⟩
+  intro hsc e he
+  have := hvis e he
+  unfold Clem.T2.visible Clem.T2.ownerForQuery at this
+  simp [hsc] at this
+  exact this
+
+theorem goodStateA_of_empty (s : State α) (h : s.orch = []) : GoodStateA w c s := by
+  intro e he; rw [h] at he; cases he
+
 end AnyCarrier
+
 
 end Clem.Compose
